@@ -10,11 +10,14 @@ pub mod c06;
 pub mod c07;
 pub mod c15;
 pub mod c17;
+pub mod c18;
 pub mod c20;
 pub mod util;
+pub mod c08;
 pub mod c09;
 pub mod c10;
 pub mod c11;
+pub mod c14;
 pub mod digest;
 pub mod c19;
 
@@ -142,7 +145,8 @@ pub fn account(ev: &mut Eval, sc: &Scenario, res: &RunResult) -> String {
 pub fn base_signature(sc: &Scenario) -> String {
     let mut s = sc.profile.clone();
     s.push('|');
-    s.push_str(&sc.tags.join("+"));
+    let t: Vec<&str> = sc.tags.iter().filter(|t| !t.starts_with("cpu:")).map(|t| t.as_str()).collect();
+    s.push_str(&t.join("+"));
     s.push('|');
     s
 }
@@ -159,7 +163,7 @@ pub fn evaluate(prop: &str, sc: &Scenario) -> Eval {
             ev.nontrivial = ok && (sc.tags.len() > 1 || !isig.is_empty());
             ev.signature = format!("{}{}", base_signature(sc), isig);
         }
-        "C04" | "C05" | "C06" | "C07" | "C15" | "C20" => {
+        "C04" | "C05" | "C06" | "C07" | "C08" | "C15" | "C18" | "C20" => {
             let res = run(sc, &RunOpts::default());
             let isig = account(&mut ev, sc, &res);
             ev.violations = match prop {
@@ -167,7 +171,9 @@ pub fn evaluate(prop: &str, sc: &Scenario) -> Eval {
                 "C05" => c05::check(sc, &res),
                 "C06" => c06::check(sc, &res),
                 "C07" => c07::check(sc, &res),
+                "C08" => c08::check(sc, &res),
                 "C15" => c15::check(sc, &res),
+                "C18" => c18::check(sc, &res),
                 _ => c20::check(sc, &res),
             };
             ev.nontrivial = res.dumps.first().map(|d| d.result.is_ok()).unwrap_or(false);
@@ -181,6 +187,24 @@ pub fn evaluate(prop: &str, sc: &Scenario) -> Eval {
             ev.runs += 1;
             ev.violations = c11::check(sc, &res, Some(&twin));
             ev.nontrivial = sc.tags.iter().any(|t| t.starts_with("expect:"));
+            ev.signature = format!("{}{}", base_signature(sc), isig);
+        }
+        "C14" => {
+            let res = run(sc, &RunOpts::default());
+            let isig = account(&mut ev, sc, &res);
+            ev.violations = c14::check(sc, &res);
+            ev.nontrivial = res.elf.is_some();
+            if let Some(o) = &res.elf {
+                if matches!(o.mem_build_id, Some(Ok(_))) {
+                    ev.count("probe build_id_from_memory", 1);
+                }
+                if matches!(o.file_build_id, Some(Ok(_))) {
+                    ev.count("probe build_id_from_file", 1);
+                }
+                if matches!(o.mem_soname, Some(Ok(_))) {
+                    ev.count("probe soname_from_memory", 1);
+                }
+            }
             ev.signature = format!("{}{}", base_signature(sc), isig);
         }
         "C17" => {
